@@ -234,7 +234,7 @@ fn step(name: &str, o: &(String, String, String), extra: Value) -> Value {
   Value::Object(m)
 }
 
-fn fx_or_null(x: f64) -> Value {
+pub fn fx_or_null(x: f64) -> Value {
   if x.is_finite() {
     fx(x)
   } else {
@@ -275,8 +275,70 @@ pub fn nm_period_replay_traced(signal: &SignalBeam, pump: &PumpBeam, cs: &Crysta
   r.ok().map(|p| (p, table.into_inner(), guess, guess + 1e-6))
 }
 
+/// does the cost function of the automatic-period search evaluate to NaN at one of the candidate periods of the replayed
+/// search (public API only)?  The independent observation of the cause "NaN cost" of a panic in that search.
+pub fn nm_period_cost_nan(signal: &SignalBeam, pump: &PumpBeam, cs: &CrystalSetup, z: f64) -> bool {
+  let seen_nan = std::cell::Cell::new(false);
+  let guess = (std::f64::consts::TAU / z).abs();
+  let _ = guarded_loc(|| {
+    let sign: Sign = z.into();
+    let pm = |period: f64| {
+      let pp = PeriodicPoling::On { period: period * M, sign, apodization: Apodization::Off };
+      let c = match IdlerBeam::try_new_optimum(signal, pump, cs, &pp) {
+        Ok(idler) => (*(delta_k(signal.frequency(), idler.frequency(), signal, &idler, pump, cs, &pp) * M / RAD)).z.abs(),
+        Err(_) => f64::NAN,
+      };
+      if c.is_nan() {
+        seen_nan.set(true);
+      }
+      c
+    };
+    spdcalc::math::nelder_mead_1d(pm, (guess, guess + 1e-6), 1000, f64::MIN_POSITIVE, *(cs.length / M), 1e-12)
+  });
+  seen_nan.get()
+}
+
 pub fn nm_period_replay(signal: &SignalBeam, pump: &PumpBeam, cs: &CrystalSetup, z: f64) -> Option<f64> {
   nm_period_replay_traced(signal, pump, cs, z).map(|r| r.0)
+}
+
+/// argument digests of the public calls behind the recorded oracle answers (Model/ConfigCheck.v checks them against the
+/// arguments the MODEL passes)
+pub fn beam_args(b: &Beam) -> Vec<f64> {
+  vec![*(b.vacuum_wavelength() / M), *(b.theta_internal() / RAD), *(b.phi() / RAD)]
+}
+pub fn signed_period_of(pp: &PeriodicPoling) -> f64 {
+  match pp {
+    PeriodicPoling::Off => 0.,
+    PeriodicPoling::On { period, sign, .. } => if *sign == Sign::POSITIVE { *(*period / M) } else { -*(*period / M) },
+  }
+}
+pub fn args_snell_ext(signal: &Beam, cs: &CrystalSetup) -> Value {
+  let mut v = beam_args(signal);
+  v.push(*(cs.theta / RAD));
+  v.push(*(cs.phi / RAD));
+  fxs_or_null(&v)
+}
+pub fn args_dkz0(signal: &Beam, pump: &Beam, cs: &CrystalSetup) -> Value {
+  let mut v = beam_args(signal);
+  v.push(*(pump.vacuum_wavelength() / M));
+  v.push(*(cs.theta / RAD));
+  v.push(*(cs.phi / RAD));
+  fxs_or_null(&v)
+}
+pub fn args_nm_theta(ext: f64, signal: &Beam, pump: &Beam, cs: &CrystalSetup) -> Value {
+  fxs_or_null(&[ext, *(signal.vacuum_wavelength() / M), *(signal.phi() / RAD), *(pump.vacuum_wavelength() / M), *(cs.phi / RAD)])
+}
+pub fn args_idler_theta(signal: &Beam, pump: &Beam, cs: &CrystalSetup, pp: &PeriodicPoling) -> Value {
+  let mut v = beam_args(signal);
+  v.push(*(pump.vacuum_wavelength() / M));
+  v.push(*(cs.theta / RAD));
+  v.push(*(cs.phi / RAD));
+  v.push(signed_period_of(pp));
+  fxs_or_null(&v)
+}
+pub fn fxs_or_null(v: &[f64]) -> Value {
+  Value::Array(v.iter().map(|x| fx_or_null(*x)).collect())
 }
 
 /// The shadow construction.  Returns {"steps": [...], "oracles": {...}, "shadow": setup or null}
@@ -293,11 +355,13 @@ pub fn shadow(cfg: &SPDCConfig) -> Value {
     orc.insert("waist_pos".into(), Value::Array(waist_pos));
     json!({"steps": steps, "oracles": orc, "shadow": sh, "cs0": crystal_json(&cs0)})
   };
+  // does the crystal's own index function evaluate at all (an expression crystal with an unbound name does not)?
+  orc.insert("index_panics".into(), json!(guarded_loc(|| cs0.crystal.get_indices(cfg.signal.wavelength_nm * NANO * M, cs0.temperature)).is_err()));
   // -- signal
   let so = outcome(|| cfg.signal.clone().try_as_beam(&cs0));
   steps.push(step("signal", &(so.0.clone(), so.1.clone(), so.2.clone()), json!({})));
   if let (None, Some(e)) = (cfg.signal.theta_deg, cfg.signal.theta_external_deg) {
-    snell_inv.push(json!({"wavelength": fx(cfg.signal.wavelength_nm * NANO), "ext": fx((e * DEG.value_unsafe).abs()),
+    snell_inv.push(json!({"wavelength": fx(cfg.signal.wavelength_nm * NANO), "ext": fx(e * DEG.value_unsafe),
       "r": match &so.3 { Some(b) => fx_or_null(*(b.theta_internal() / RAD)), None => Value::Null }}));
   }
   let signal = match so.3 {
@@ -309,7 +373,17 @@ pub fn shadow(cfg: &SPDCConfig) -> Value {
   orc.insert("ls_le_lp".into(), json!(ls <= lp));
   // oracles that depend on (signal, pump, cs0)
   let te = guarded_loc(|| *(signal.theta_external(&cs0) / RAD));
+  let mut args = Map::new();
+  args.insert("snell_ext".into(), args_snell_ext(&signal, &cs0));
+  args.insert("dkz0".into(), args_dkz0(&signal, &pump, &cs0));
+  if let Ok(x) = &te {
+    args.insert("nm_theta".into(), args_nm_theta(*x, &signal, &pump, &cs0));
+  }
+  orc.insert("args".into(), Value::Object(args.clone()));
   orc.insert("snell_ext".into(), match te { Ok(x) => fx_or_null(x), Err(_) => Value::Null });
+  // the argument of that asin, n sin(theta_s), through the public index: the composed model's definedness guard is |.| <= 1
+  let sa = guarded_loc(|| *signal.refractive_index(signal.frequency(), &cs0) * (*(signal.theta_internal() / RAD)).sin());
+  orc.insert("snell_arg".into(), match sa { Ok(x) => fx_or_null(x), Err(_) => Value::Null });
   let z = dkz0(&signal, &pump, &cs0);
   orc.insert("dkz0".into(), match z { Some(z) => fx_or_null(z), None => Value::Null });
   // -- poling
@@ -331,6 +405,13 @@ pub fn shadow(cfg: &SPDCConfig) -> Value {
             }
           }
         }
+        if nm.is_null() {
+          if let Some(z) = z {
+            if z.is_finite() && z != 0. && !(ls <= lp) {
+              orc.insert("nm_period_cost_nan".into(), json!(nm_period_cost_nan(&signal, &pump, &cs0, z)));
+            }
+          }
+        }
         orc.insert("nm_period".into(), nm);
         steps.push(step("optimum_poling_period", &(o.0.clone(), o.1.clone(), o.2.clone()), json!({"value": val})));
         match o.3 {
@@ -342,7 +423,9 @@ pub fn shadow(cfg: &SPDCConfig) -> Value {
         // does the implementation reject this explicit period before anything else (0 / non-finite)?  Observed through
         // the public one-shot helper, not assumed.
         let pre = outcome(|| cfg.periodic_poling.clone().try_as_periodic_poling(&signal, &pump, &cs0));
-        if pre.0 == "err" && pre.1.starts_with("Poling period must") {
+        // (the explicit-period arm has no other source of Err: compute_sign returns a Sign, not a Result -- the generator
+        // checks the arm's shape -- so the class of the outcome, not the text of the message, decides)
+        if pre.0 == "err" {
           steps.push(step("period_check", &(pre.0.clone(), pre.1.clone(), pre.2.clone()), json!({})));
           return done(steps, orc, snell_inv, waist_pos, Value::Null);
         }
@@ -382,7 +465,7 @@ pub fn shadow(cfg: &SPDCConfig) -> Value {
       let o = outcome(|| ic.clone().try_as_beam(&cs1));
       steps.push(step("idler_explicit", &(o.0.clone(), o.1.clone(), o.2.clone()), json!({})));
       if let (None, Some(e)) = (ic.theta_deg, ic.theta_external_deg) {
-        snell_inv.push(json!({"wavelength": fx(ic.wavelength_nm * NANO), "ext": fx((e * DEG.value_unsafe).abs()),
+        snell_inv.push(json!({"wavelength": fx(ic.wavelength_nm * NANO), "ext": fx(e * DEG.value_unsafe),
           "r": match &o.3 { Some(b) => fx_or_null(*(b.theta_internal() / RAD)), None => Value::Null }}));
       }
       match o.3 {
@@ -392,6 +475,8 @@ pub fn shadow(cfg: &SPDCConfig) -> Value {
     }
     AutoCalcParam::Auto(_) => {
       let o = outcome(|| IdlerBeam::try_new_optimum(&signal, &pump, &cs1, &pp));
+      args.insert("idler_theta".into(), args_idler_theta(&signal, &pump, &cs1, &pp));
+      orc.insert("args".into(), Value::Object(args.clone()));
       let val = match &o.3 { Some(b) => beam_json(b), None => Value::Null };
       orc.insert("idler_theta".into(), match &o.3 { Some(b) => fx_or_null(*(b.theta_internal() / RAD)), None => Value::Null });
       steps.push(step("idler_optimum", &(o.0.clone(), o.1.clone(), o.2.clone()), json!({"value": val})));
@@ -498,7 +583,11 @@ fn apod_value(rng: &mut Rng) -> Value {
 /// Structured configuration.  `mal` selects a malformation / boundary class (0 = valid stream).
 pub fn gen_config(rng: &mut Rng, mal: usize, tags: &mut Vec<String>) -> Value {
   let cr = crystals();
-  let c = &cr[rng.below(cr.len())];
+  let mut c = &cr[rng.below(cr.len())];
+  if mal == 8 {
+    // the expression crystal below is BBO_1's formula: wavelengths from BBO_1's window
+    c = cr.iter().find(|x| x.id == "BBO_1").unwrap_or(c);
+  }
   let ty = rng.below(5);
   let form = rng.below(8);
   let (lp, mut ls) = pick_wavelengths(rng, c);
@@ -525,8 +614,11 @@ pub fn gen_config(rng: &mut Rng, mal: usize, tags: &mut Vec<String>) -> Value {
   }
   crystal.insert("length_um".into(), json!(length));
   crystal.insert("temperature_c".into(), json!(short(rng.range(-20., 150.))));
-  if rng.below(8) == 0 {
-    crystal.insert("counter_propagation".into(), json!(false));
+  // every value of the only boolean field: true / false / omitted (serde default = false)
+  match rng.below(4) {
+    0 => { crystal.insert("counter_propagation".into(), json!(true)); tags.push("counter_propagation".into()); }
+    1 => { crystal.insert("counter_propagation".into(), json!(false)); }
+    _ => tags.push("omit:crystal.counter_propagation".into()),
   }
   let mut pump = Map::new();
   pump.insert("waist_um".into(), json!(short(rng.log_range(20., 500.))));
@@ -561,10 +653,15 @@ pub fn gen_config(rng: &mut Rng, mal: usize, tags: &mut Vec<String>) -> Value {
   let idl_ext = rng.coin();
   idler_explicit.insert(if idl_ext { "theta_external_deg" } else { "theta_deg" }.into(), json!(short(rng.range(0., 4.))));
   idler_explicit.insert("waist_um".into(), json!(short(rng.log_range(20., 300.))));
+  let mut idler_tags: Vec<String> = vec![];
   match rng.below(3) {
     0 => { idler_explicit.insert("waist_position_um".into(), json!("auto")); }
     1 => { idler_explicit.insert("waist_position_um".into(), json!(short(rng.range(-1., 1.) * length))); }
-    _ => {}
+    _ => idler_tags.push("omit:idler.waist_position_um".into()),
+  }
+  if rng.below(4) == 0 {
+    idler_explicit.remove("phi_deg");
+    idler_tags.push("omit:idler.phi_deg".into());
   }
   let mut pp = Value::Null;
   let mut pp_present = false;
@@ -577,8 +674,13 @@ pub fn gen_config(rng: &mut Rng, mal: usize, tags: &mut Vec<String>) -> Value {
   } else if rng.below(3) == 0 {
     pp_present = true; // explicit null = off
   }
-  if pp_mode != 0 && rng.coin() {
-    pp.as_object_mut().unwrap().insert("apodization".into(), apod_value(rng));
+  let mut apod_omitted = false;
+  if pp_mode != 0 {
+    if rng.coin() {
+      pp.as_object_mut().unwrap().insert("apodization".into(), apod_value(rng));
+    } else {
+      apod_omitted = true;
+    }
   }
   // ---- malformations / boundary classes
   match mal {
@@ -660,6 +762,23 @@ pub fn gen_config(rng: &mut Rng, mal: usize, tags: &mut Vec<String>) -> Value {
       }
       pp_present = true;
     }
+    8 => {
+      // expression crystals (CrystalType::Expr): BBO's Sellmeier formula written out (uniaxial, or biaxial with nx = ny),
+      // and the same with an unknown variable / an unknown function in one expression -- an invalid configuration
+      let no = "sqrt(2.7359+0.01878/(l^2-0.01822)-0.01354*l^2)";
+      let ne = "sqrt(2.3753+0.01224/(l^2-0.01667)-0.01516*l^2)";
+      let bad = rng.below(3);
+      let spoil = |e: &str| -> String {
+        match bad { 1 => format!("{}+q", e), 2 => format!("foo({})", e), _ => e.to_string() }
+      };
+      let kind = if rng.coin() {
+        json!({"no": spoil(no), "ne": ne})
+      } else {
+        json!({"nx": no, "ny": no, "nz": spoil(ne)})
+      };
+      crystal.insert("kind".into(), kind);
+      tags.push(match bad { 1 => "expr_crystal:unknown_variable", 2 => "expr_crystal:unknown_function", _ => "expr_crystal:valid" }.into());
+    }
     _ => {}
   }
   pump.insert("wavelength_nm".into(), json!(lp));
@@ -675,7 +794,10 @@ pub fn gen_config(rng: &mut Rng, mal: usize, tags: &mut Vec<String>) -> Value {
   match idler_mode {
     0 => tags.push("omit:idler".into()),
     1 => { cfg.insert("idler".into(), json!("auto")); }
-    _ => { cfg.insert("idler".into(), Value::Object(idler_explicit)); }
+    _ => { cfg.insert("idler".into(), Value::Object(idler_explicit)); tags.extend(idler_tags); }
+  }
+  if apod_omitted && pp.get("poling_period_um").is_some() && pp.get("apodization").is_none() {
+    tags.push("omit:periodic_poling.apodization".into());
   }
   if pp_present {
     cfg.insert("periodic_poling".into(), pp);
